@@ -37,7 +37,7 @@ fn utf8count_subjects() -> Vec<(&'static str, CountFn)> {
 /// frame at the offset
 fn utf8_plans(cx: &Cx) -> Vec<(usize, usize, usize)> {
     let mut v = vec![(0, 0, 0), (1, 0, 1), (2, 0, 2), (3, 0, 3), (4, 0, 4)];
-    let offs: Vec<usize> = if cx.thorough { vec![0, 13, 14, 15, 29, 30, 31, 32, 45, 61, 62, 63, 64, 66, 67] } else { vec![0, 30, 62, 67] };
+    let offs: Vec<usize> = if cx.thorough { vec![0, 13, 14, 15, 29, 30, 31, 32, 45, 61, 62, 63, 64, 66, 67] } else { vec![30, 62, 67] };
     for o in offs {
         v.push((70, o, 3));
         if cx.thorough {
@@ -51,9 +51,10 @@ fn utf8_plans(cx: &Cx) -> Vec<(usize, usize, usize)> {
         v.push((130, 62, 3));
         v.push((130, 127, 3));
     } else {
+        v.push((70, 0, 2));
         v.push((70, 69, 1));
         v.push((70, 68, 2));
-        v.push((130, 127, 3));
+        v.push((130, 127, 2));
     }
     v
 }
@@ -82,7 +83,7 @@ fn fam_utf8(cx: &mut Cx) {
     let plans = utf8_plans(cx);
     let frame_of = |n: usize| -> Vec<u8> { (0..n).map(|i| b'a' + (i % 26) as u8).collect() };
     let mut rng0 = cx.rng.derive("utf8-inputs");
-    let nsingles = if cx.thorough { 1500 } else { 300 };
+    let nsingles = if cx.thorough { 1500 } else { 200 };
     let mut singles: Vec<Vec<u8>> = vec![];
     for i in 0..nsingles {
         let mut t = random_text(&mut rng0, 130);
@@ -158,6 +159,67 @@ fn fam_utf8(cx: &mut Cx) {
             cx.case("utf8_count", json!({"s": bytes_json(t)}), json!({"len": t.len()}), &pls, 1, !t.is_empty(), &mut |a1, _, ps, _, _| {
                 let buf = a1.place(ps, t);
                 json!({"r": opti(f(buf))})
+            });
+        }
+    }
+    // decoders: Ok / Err is a validity verdict, Ok carries the code points / UTF-16 units
+    let b1 = zipora::string::Bmi2StringProcessor::new();
+    let b2 = zipora::string::Bmi2StringProcessor::new();
+    let decoders: Vec<(&'static str, Box<dyn Fn(&[u8]) -> Option<Vec<u32>>>)> = vec![
+        ("bmi2:extract_utf8_chars_bmi2", Box::new(move |s| b1.extract_utf8_chars_bmi2(s).ok())),
+        ("std:chars", Box::new(|s| std::str::from_utf8(s).ok().map(|t| t.chars().map(|c| c as u32).collect()))),
+    ];
+    for (name, f) in decoders {
+        if !cx.subject(name, "utf8_decode", "") {
+            continue;
+        }
+        for &(fl, off, k) in plans.iter() {
+            if k == 4 && fl == 4 && !cx.thorough && name.starts_with("std") {
+                continue;
+            }
+            let frame = frame_of(fl);
+            let cnt = UTF8_ALPHA.len().pow(k as u32);
+            let pls = cx.pls1();
+            cx.case("utf8count_batch", json!({"frame": bytes_json(&frame), "off": off, "alpha": bytes_json(&UTF8_ALPHA), "k": k, "api": "decode"}),
+                    json!({"frame": fl, "off": off, "k": k}), &pls, cnt, true, &mut |a1, _, ps, _, pend| {
+                let buf = a1.place(ps, &frame);
+                let mut r: Vec<i64> = Vec::with_capacity(cnt);
+                for idx in 0..cnt {
+                    pend.set_p(idx);
+                    let q = nth_string(k, idx);
+                    buf[off..off + k].copy_from_slice(&q);
+                    r.push(f(buf).map(|v| v.len() as i64).unwrap_or(-1));
+                }
+                json!({"r": r})
+            });
+        }
+        for t in singles.iter() {
+            let pls = cx.pls1();
+            cx.case("utf8_decode", json!({"s": bytes_json(t)}), json!({"len": t.len()}), &pls, 1, !t.is_empty(), &mut |a1, _, ps, _, _| {
+                let buf = a1.place(ps, t);
+                match f(buf) {
+                    Some(v) => json!({"ok": true, "r": v}),
+                    None => json!({"ok": false, "r": []}),
+                }
+            });
+        }
+    }
+    let to16: Vec<(&'static str, Box<dyn Fn(&[u8]) -> Option<Vec<u16>>>)> = vec![
+        ("bmi2:utf8_to_utf16_bmi2", Box::new(move |s| b2.utf8_to_utf16_bmi2(s).ok())),
+        ("std:encode_utf16", Box::new(|s| std::str::from_utf8(s).ok().map(|t| t.encode_utf16().collect()))),
+    ];
+    for (name, f) in to16 {
+        if !cx.subject(name, "utf16", "") {
+            continue;
+        }
+        for t in singles.iter() {
+            let pls = cx.pls1();
+            cx.case("utf16", json!({"s": bytes_json(t)}), json!({"len": t.len()}), &pls, 1, !t.is_empty(), &mut |a1, _, ps, _, _| {
+                let buf = a1.place(ps, t);
+                match f(buf) {
+                    Some(v) => json!({"ok": true, "r": v}),
+                    None => json!({"ok": false, "r": []}),
+                }
             });
         }
     }
